@@ -150,9 +150,12 @@ def run(ck):
         Xv = xr.make_X('random', 80, d, nr); yv = xr.make_y(task, Xv, nr, n_classes=int(y.max()) + 1 if task == 'class' else 3)
         space = [0.0, 0.05, 0.3, 1.0, 3.0] if i % 3 else [0.3, 0.0, 2.0]
         xr.seed_all(4200 + i + ck.seed)
+        # every fourth fit: three trees requested but the time budget lets only the first be built (time_limit_s=0 is deterministic)
+        cut = (i % 4 == 1)
         model = xr.xRFM(rfm_params=xr.default_rfm_params(iters=1, reg=1e-2), max_leaf_size=L, verbose=False, tuning_metric=metric,
-                        temp_tuning_space=space, n_trees=1 + i % 2, classification_mode=['zero_one', 'prevalence'][i % 2])
-        desc = dict(i=i, task=task, metric=metric, n=n, L=L, space=space, seed=ck.seed)
+                        temp_tuning_space=space, n_trees=(3 if cut else 1 + i % 2), classification_mode=['zero_one', 'prevalence'][i % 2],
+                        **(dict(time_limit_s=0) if cut else {}))
+        desc = dict(i=i, task=task, metric=metric, n=n, L=L, space=space, n_trees=(3 if cut else 1 + i % 2), time_limit_s=(0 if cut else None), seed=ck.seed)
         try:
             with xr.quiet():
                 model.fit(torch.tensor(X), torch.tensor(y), torch.tensor(Xv), torch.tensor(yv))
@@ -160,7 +163,7 @@ def run(ck):
             ck.notes.append(f'fit failed {desc}: {e!r}'); ck.count('real-fit-failed'); continue
         if not hasattr(model, 'temperature_tuning_results_'):
             ck.count('real fit without split (no tuning)'); continue
-        ck.count(f'real-fit metric={metric}')
+        ck.count(f'real-fit metric={metric}'); ck.count(f'real-fit trees held {len(model.trees)} of {model.n_trees}')
         M = xmod.Metric.from_name(metric)
         stored = model.split_temperature
 
